@@ -49,12 +49,19 @@ def main():
                     continue
                 sh("git", "-C", WT, "reset", "--hard", "HEAD")
                 rv = sh("git", "-C", WT, "revert", "-n", commit)
+                how = "git revert -n"
                 if rv.returncode != 0:
+                    # later fixes touched the same lines: take the touched files back to their state before this
+                    # commit (this also undoes the later fixes to those files; the tree then has at least this defect)
                     sh("git", "-C", WT, "revert", "--abort")
                     sh("git", "-C", WT, "reset", "--hard", "HEAD")
-                    results.append(dict(kind="revert-fix", property=prop, commit=commit, what=what[:160], outcome="revert-conflict"))
-                    print("CONFLICT %s %s" % (prop, commit))
-                    continue
+                    files = [f for f in sh("git", "-C", WT, "show", "--name-only", "--format=", commit).stdout.split() if f]
+                    co = sh("git", "-C", WT, "checkout", commit + "^", "--", *files)
+                    how = "files of the commit restored to their state before it"
+                    if co.returncode != 0:
+                        results.append(dict(kind="revert-fix", property=prop, commit=commit, what=what[:160], outcome="revert-conflict"))
+                        print("CONFLICT %s %s" % (prop, commit))
+                        continue
                 b = sh("go", "build", "./...", cwd=WT, env=dict(os.environ, GOFLAGS="-mod=mod", GOPROXY="off", GOSUMDB="off"))
                 if b.returncode != 0:
                     results.append(dict(kind="revert-fix", property=prop, commit=commit, what=what[:160], outcome="does-not-build"))
@@ -62,7 +69,7 @@ def main():
                     continue
                 rc, sigs, secs, tail = run_check(prop)
                 ok = rc == 1
-                results.append(dict(kind="revert-fix", property=prop, commit=commit, what=what[:160], outcome="detected" if ok else "MISSED rc=%d" % rc, sigs=sigs[:6], seconds=secs))
+                results.append(dict(kind="revert-fix", property=prop, commit=commit, how=how, what=what[:160], outcome="detected" if ok else "MISSED rc=%d" % rc, sigs=sigs[:6], seconds=secs))
                 print("%s %s %s rc=%d %.0fs %s" % ("DETECTED" if ok else "MISSED  ", prop, commit, rc, secs, sigs[:2]))
         if do_seed:
             sd = os.path.join(VERIF, "seeded")
